@@ -248,9 +248,38 @@ def check_trunc(recipe) -> list[Fail]:
     n = n_nt = n_known = 0
     outcomes = {}
     keys = []
+    # A cut at a LINE boundary where an uncounted, optional block (UNITY_ATOM_ATTR ...) of the last molecule is about to begin, or has just
+    # completed one of its records, leaves a well-formed file of a molecule that simply lacks those optional records: no reader can tell
+    # (same class as whole-record deletions in such blocks).  Cuts inside a record of the block (the announced attribute lines are not all
+    # there) and every cut inside a line stay asserted.
+    optional_cuts = set()
+    if fmt == "mol2":
+        block, pending = None, 0
+        for i, l in enumerate(lines):
+            s_ = l.strip()
+            if s_.startswith("@<TRIPOS>"):
+                if s_[9:].startswith("UNITY_") and offs[i] >= last_start:
+                    optional_cuts.add(offs[i])          # cut right before the block's tag line
+                block, pending = s_[9:], 0
+                if block.startswith("UNITY_") and offs[i + 1] >= last_start:
+                    optional_cuts.add(offs[i + 1])      # the tag line alone: an empty optional block
+            elif block and block.startswith("UNITY_") and s_:
+                if pending == 0:
+                    try:
+                        pending = int(s_.split()[1])
+                    except (IndexError, ValueError):
+                        pending = 0
+                else:
+                    pending -= 1
+                if pending == 0 and offs[i + 1] >= last_start:
+                    optional_cuts.add(offs[i + 1])      # a record of the block is complete here
+    optional_lens = {len(text[:c_].rstrip()) for c_ in optional_cuts}
     for cut in sorted(cuts):
         damaged = text[:cut]
         if not damaged.strip() or damaged.rstrip() == text.rstrip():
+            continue
+        if cut in optional_cuts or len(damaged.rstrip()) in optional_lens:
+            outcomes["excluded:cut-at-a-record-boundary-of-an-optional-uncounted-block"] = outcomes.get("excluded:cut-at-a-record-boundary-of-an-optional-uncounted-block", 0) + 1
             continue
         n += 1
         if _last_numeric_token_cut(text, cut):
